@@ -96,6 +96,13 @@ def make_generate(version):
                             (2 ** rng.randrange(54, 64)) - rng.randrange(0, 9), rng.randrange(2 ** 53, 2 ** 64 - 2 ** 20) // k * k + rng.randrange(0, k)])
             pre = [(q, rng.randrange(0, 1000)) for q in rng.sample(ps, rng.randrange(0, k + 1))] if rng.random() < 0.4 else []
             add(fair, False, d, ps, pre, "fair-huge-dividend")
+        # priority 0 is a legal value: lists that contain it, and the list [0] alone (Rate: the priorities sum to zero)
+        for d in [0, 1, 2, 7, 100, rng.randrange(1, 10 ** 6)]:
+            for which in (fair, rate):
+                add(which, False, d, [0], [], "zero-priority")
+                add(which, False, d, [0], [(0, 3), (5, 1)], "zero-priority")
+                add(which, False, d, [3, 0], [], "zero-priority")
+                add(which, False, d, [7, 2, 0], [(2, 1)], "zero-priority")
         # malformed stream (correspondence only): empty list, duplicates, unsorted
         for _ in range(40 if tier == "quick" else 400):
             kind = rng.randrange(3)
